@@ -33,6 +33,7 @@ CONSTANTS Scripts,          \* relay scripts to enumerate (first duty)
           GraffitiOuts,     \* outcomes of the graffiti lookup to enumerate (first duty)
           NRelays,          \* Relays = 1..NRelays
           PrepOuts,         \* outcomes of the accounts lookup (first duty)
+          Drops,            \* TRUE: a prepared duty may be dropped instead of proposed (where duty objects live side by side)
           CfgFilter,        \* "nonodeclient": proposal providers without NodeClient (no template graffiti in the run);
                             \* "graffiti": only services with a graffiti provider and without unblind-from-all
           LaterScripts, LaterGraffitiOuts, LaterPrepOuts, LaterNodeClientOuts, LaterStepOuts
@@ -79,7 +80,7 @@ SNext ==
     \/ pc \in {"prepfailed", "prepared"} /\ PrepRet /\ UNCHANGED sc
     \/ ProposeCall /\ sc' = [sc EXCEPT !.sched = Append(@, Sched("propose"))]
     \* a prepared duty is dropped only where duty objects live side by side (a refresh replaced it)
-    \/ MaxOpen > 1 /\ Drop /\ sc' = [sc EXCEPT !.sched = Append(@, Sched("drop"))]
+    \/ MaxOpen > 1 /\ Drops /\ Drop /\ sc' = [sc EXCEPT !.sched = Append(@, Sched("drop"))]
     \/ \E out \in Bound(GraffitiOuts, LaterGraffitiOuts) : GraffitiCall(out) /\ Put("graffiti", out)
     \/ \E out \in Bound({"ok", "err"}, LaterNodeClientOuts) : NodeClientCall(out) /\ Put("nodeclient", out)
     \/ /\ pc = "auction" /\ "err" \in StepOuts
